@@ -45,6 +45,9 @@ class _getitem:
     def __jug_hash__(self):
         return hash_one(('jug.task._getitem', self.slice))
 
+    def __jug_dependencies__(self):
+        return [self.slice]
+
     def __repr__(self):
         return 'jug.task._getitem(%s)' % self.slice
     def __str__(self):
@@ -424,6 +427,8 @@ class Tasklet(TaskletMixin):
 
     def dependencies(self):
         yield self.base
+        if hasattr(self.f, '__jug_dependencies__'):
+            yield self.f
     __jug_dependencies__ = dependencies
 
     def value(self):
